@@ -160,35 +160,25 @@ theorem C11_forbidden_nonfinite (env : Env) (st : Str) (f : PyFloat)
 
 /-! ## idempotence -/
 
-/-- Repairing a repaired document changes nothing and logs nothing — for documents outside the class
-of known finding F40 (`DocNoCycle`: for every text leaf, the ENUM constraints of its chain that have a
-single case-insensitive match agree on it), given that coercibility does not depend on letter case
-(`CaseStable`, an external law of CPython's numeral grammar, checked dynamically by the harness).
-PARTIAL: without `DocNoCycle` the statement is false — `C11_idem_F40` below. -/
-theorem C11_idem_partial {env : Env} (hcs : CaseStable env) (d : Doc) (sch : Schema)
-    (hnc : DocNoCycle env sch d.leaves) :
+/-- Repairing a repaired document changes nothing and logs nothing — for every schema and document
+(since commit 9d272b4 `repair_value` drops a chain of repairs that ends where it started, which closed
+known finding F40).  `CaseStable`: coercibility does not depend on letter case — an external law of
+CPython's numeral grammar and `str.lower`, checked dynamically by the harness on every run. -/
+theorem C11_idem {env : Env} (hcs : CaseStable env) (d : Doc) (sch : Schema) :
     repair env (repair env d true (some sch)).1 true (some sch) = ((repair env d true (some sch)).1, []) := by
   simp only [repair]
-  rw [idem_nodes hcs sch d.sections hnc]
+  rw [idem_nodes hcs sch d.sections]
 
-/-- The value part of idempotence needs no hypothesis on single-ENUM chains… it is covered by
-`C11_idem_partial`; on the F40 witness the *document* is stable but the *log* is not. -/
+/-- Regression vector of the former finding F40: two ENUMs whose single case-insensitive matches differ. -/
 def f40Schema : Schema := { name := "W".toList, fields := [
   ("BOTH".toList, ⟨some ⟨some ⟨[.opt, .enum ["A".toList, "B".toList], .enum ["a".toList, "b".toList]], 0⟩, none⟩⟩)] }
-def f40Doc : Doc := { name := "DOC".toList, sections := [.assign {} "BOTH".toList (.str "A".toList)] }
+def f40Doc : Doc := { name := "DOC".toList, sections := [.assign {} "BOTH".toList (.str "A".toList), .assign {} "BOTH".toList (.str "a".toList)] }
 
-/-- F40 (negation on the witness): the second repair of the witness logs two more entries. -/
-theorem C11_idem_F40 :
-    (repair asciiEnv (repair asciiEnv f40Doc true (some f40Schema)).1 true (some f40Schema)).2 =
-      [⟨"ENUM_CASEFOLD", "a".toList, "A".toList, .repair, true, false⟩,
-       ⟨"ENUM_CASEFOLD", "A".toList, "a".toList, .repair, true, false⟩] := by decide
-
-/-- … and the witness is inside the class: two ENUMs with different single matches. -/
-theorem C11_F40_in_class : ¬ DocNoCycle asciiEnv f40Schema f40Doc.leaves := by
-  intro h
-  have := h "BOTH".toList "A".toList (by simp [f40Doc, Doc.leaves, Node.leavesList, Node.leaves]) ["A".toList, "B".toList] ["a".toList, "b".toList] "A".toList "a".toList
-    (by decide) (by decide) (by decide) (by decide)
-  exact absurd this (by decide)
+/-- first run: `A → a` is a real change and is logged; `a` (→ A → a) ends where it started and is not. -/
+example : (repair asciiEnv f40Doc true (some f40Schema)).2 =
+    [⟨"ENUM_CASEFOLD", "A".toList, "a".toList, .repair, true, false⟩] := by decide
+/-- second run: silent (it used to log `a→A, A→a`). -/
+example : (repair asciiEnv (repair asciiEnv f40Doc true (some f40Schema)).1 true (some f40Schema)).2 = [] := by decide
 
 /-! ## the entry points call repair once, under their guard, and copy the log -/
 
@@ -235,7 +225,7 @@ theorem gen_type_map : Gen.typeMap =
     [("STRING", ["str"]), ("NUMBER", ["int", "float"]), ("BOOLEAN", ["bool"]), ("LIST", ["list"])] := by decide
 
 /-- every call of `repair()` passes the parsed `doc`, `fix=True`, the file-based schema definition;
-the MCP tools read the returned log, the CLI does not (known finding F41). -/
+all three read the returned log (the CLI since commit 6342678, which closed known finding F41). -/
 theorem gen_repair_sites : Gen.repairSites.map (fun s => (s.1, s.2.2.1, s.2.2.2.1, s.2.2.2.2.1)) =
     [("mcp/validate.py", "True", "doc", "schema_definition"), ("mcp/write.py", "True", "doc", "schema_definition"),
      ("cli/main.py", "True", "doc", "schema_definition")] := by decide
@@ -244,7 +234,7 @@ theorem gen_repair_sites_guarded :
     (Gen.repairSites.map fun s => (s.1, s.2.1.contains "fix" || s.2.1.contains "lenient")) =
     [("mcp/validate.py", true), ("mcp/write.py", true), ("cli/main.py", true)] := by decide
 
-theorem gen_tools_copy_log : (Gen.repairSites.filter (fun s => s.1 ≠ "cli/main.py")).all (fun s => s.2.2.2.2.2) = true := by decide
+theorem gen_tools_copy_log : Gen.repairSites.all (fun s => s.2.2.2.2.2) = true := by decide
 
 /-! ## non-vacuity: a document of depth 3 with both kinds of repair, a two-step chain, a refused
 overflow, an untouched zone and an untouched nested occurrence of a non-schema key -/
@@ -270,7 +260,7 @@ example : (repair asciiEnv exDoc true (some exSchema)).2 =
 
 example : (repair asciiEnv exDoc false (some exSchema)).2 = [] := by decide
 example : (repair asciiEnv exDoc true (some exSchema)).1.skeleton.length = 2 := by decide
-/-- hypotheses of `C11_idem_partial` are satisfiable on a non-trivial document. -/
+/-- `C11_idem` on a non-trivial document. -/
 example : (repair asciiEnv (repair asciiEnv exDoc true (some exSchema)).1 true (some exSchema)).2 = [] := by decide
 /-- an instance of `Step` (hypotheses of `C11_satisfies`). -/
 example : Step asciiEnv (chainOf exSchema "STATUS".toList) (.enum ["ACTIVE".toList, "DONE".toList])
